@@ -16,7 +16,7 @@ EXPLANATION = (
     "length guard covers the predicate (with C06.R2); draining leaves the length untouched until the Drain is dropped. "
     "C09.R4: C strings: generic_into_cstr truncates at position(== 0) + 1 or pushes exactly one NUL; alloc_cstr_from_str "
     "copies ..nul+1 bytes or len bytes followed by one 0 at offset len. NOT decided: results of the lossy decoders, "
-    "formatting, operation sequences.")
+    "formatting, operation sequences. C09.R10: FixedBumpString::split_off partitions length and capacity (shared with C16.R1). C09.R11: Display/Debug of the string types are exactly one call of <str as Display/Debug>::fmt.")
 
 STR_TYPES = ("bump_box::BumpBox::<'a, str>::", "fixed_bump_string::FixedBumpString::<'a>::", "bump_string::BumpString::<A>::",
              "mut_bump_string::MutBumpString::<A>::")
